@@ -25,6 +25,15 @@ imports dropped, `ret` / `end` over the python variables) that additionally tran
   returned calls       `ret_bind=True` : a returned expression that is monadic (`return f(x)` where `f` may raise) is bound
                        and its value goes through the `ret` template like every other returned value (default: it is
                        returned as it is, as in Translator2).
+  helper functions     `helpers={name: FunctionDef}` (see `module_helpers`): a module-level helper the code under translation
+                       calls is INLINED at its call site when the call is the whole right-hand side of an assignment or
+                       the returned value (`a, b = _helper(x, y)` / `return _helper(x)`): the parameters are bound to the
+                       arguments, every `return E` of the helper becomes the assignment / return of `E` (early returns
+                       are first rewritten into if / else chains), a `raise` stays a `raise`; helper locals that clash
+                       with the caller's variables are renamed.  A helper used as a VALUE (`callback = _helper`) becomes
+                       a lambda when its body is a single `return E`.  So extracting a block into a module-level
+                       function, or putting it back, does not change the translation.
+  x in (a, b) / [a, b] membership in a literal tuple or list -> `(List.contains [a, b] x)` (`not in`: negated); a rule wins.
   keyword arguments    are matched in any order (patterns and source are normalised by sorting them).
   module-level values  `module_assign(module, name)` : the value node of `name = <expr>` at module level (partials).
   decorators           `decorators(fn)` : source text of the decorators of a (possibly wrapped) live function.
@@ -69,9 +78,10 @@ class _Tmpl(str):
 
 
 class Rules2F(Rules2M):
-    def __init__(self, expr=(), stmt=(), skip=(), optional=None, ret_bind=False, **kw):
+    def __init__(self, expr=(), stmt=(), skip=(), optional=None, ret_bind=False, helpers=None, **kw):
         Rules2M.__init__(self, expr=expr, stmt=stmt, **kw)
         self.ret_bind = ret_bind
+        self.helpers = dict(helpers or {})
         self.scope = _Scope()
         self.expr = [(_norm_kw(p), _Tmpl(t, self.scope), fl) for p, t, fl in self.expr]
         self.stmt = [(_norm_kw(p), recv, _Tmpl(t, self.scope)) for p, recv, t in self.stmt]
@@ -89,6 +99,16 @@ class Translator2F(Translator2M):
                 r = self._listcomp(node, scope)
                 if r is not None:
                     return r
+            ruled = any(match(pat, node, {}) for pat, _t, _f in self.r.expr)
+            if (not ruled and isinstance(node, ast.Name) and node.id not in scope and node.id not in self.r.names
+                    and node.id in self.r.helpers):
+                return self._lambda_of_def(self.r.helpers[node.id], scope), ""      # a helper used as a value
+            if (not ruled and isinstance(node, ast.Compare) and len(node.ops) == 1
+                    and isinstance(node.ops[0], (ast.In, ast.NotIn))
+                    and isinstance(node.comparators[0], (ast.Tuple, ast.List))):
+                items = ", ".join(self.pure(e, scope) for e in node.comparators[0].elts)
+                t = "(List.contains [%s] %s)" % (items, self.pure(node.left, scope))
+                return ("(!%s)" % t if isinstance(node.ops[0], ast.NotIn) else t), ""
             return Translator2M.expr(self, node, scope)
         finally:
             self.r.scope.now = old
@@ -222,9 +242,115 @@ class Translator2F(Translator2M):
         return Translator2M._block1(self, stmts, scope, ind, ctx)
 
     # ------------------------------------------------------------------------------------------ entry points
+    # ------------------------------------------------------------------------------------------ helper inlining
+    @staticmethod
+    def _exits(stmts):
+        for st in stmts:
+            if isinstance(st, (ast.Return, ast.Raise)):
+                return True
+            if isinstance(st, ast.If) and (Translator2F._exits(st.body) or Translator2F._exits(st.orelse)):
+                return True
+            if isinstance(st, (ast.For, ast.While, ast.With, ast.Try)) and any(
+                    isinstance(n, ast.Return) for n in ast.walk(st)):
+                raise Untranslatable("helper with a `return` inside a loop / with / try: `%s`" % ast.unparse(st).splitlines()[0])
+        return False
+
+    def _tailify(self, stmts, sink):
+        """the statements with every `return E` (all in tail position after turning early returns into if / else
+        chains) replaced by `sink(E)`"""
+        if not stmts:
+            raise Untranslatable("helper that may fall off its end")
+        st, rest = stmts[0], list(stmts[1:])
+        if isinstance(st, ast.Expr) and isinstance(st.value, ast.Constant) and isinstance(st.value.value, str):
+            return self._tailify(rest, sink)
+        if isinstance(st, ast.Return):
+            if st.value is None:
+                raise Untranslatable("helper with a bare return")
+            return [sink(st.value)]
+        if isinstance(st, ast.Raise):
+            return [st]
+        if isinstance(st, ast.If) and (self._exits(st.body) or self._exits(st.orelse)):
+            return [ast.If(test=st.test, body=self._tailify(list(st.body) + rest, sink),
+                           orelse=self._tailify(list(st.orelse) + rest, sink))]
+        self._exits([st])
+        return [st] + self._tailify(rest, sink)
+
+    def _instantiate(self, helper, call, sink, caller_names, keep):
+        """the body of `helper` for this call: parameters bound to the arguments, returns through `sink`"""
+        import copy
+        a = helper.args
+        if a.vararg or a.kwarg or a.kwonlyargs or a.posonlyargs or any(isinstance(x, ast.Starred) for x in call.args) \
+                or any(k.arg is None for k in call.keywords):
+            raise Untranslatable("helper call with a non-trivial signature: `%s`" % ast.unparse(call))
+        params = [x.arg for x in a.args]
+        given = dict(zip(params, call.args))
+        if len(call.args) > len(params):
+            raise Untranslatable("too many arguments: `%s`" % ast.unparse(call))
+        for k in call.keywords:
+            if k.arg not in params or k.arg in given:
+                raise Untranslatable("keyword %r of `%s`" % (k.arg, ast.unparse(call)))
+            given[k.arg] = k.value
+        for p, d in zip(params[len(params) - len(a.defaults):], a.defaults):
+            given.setdefault(p, d)
+        if set(given) != set(params):
+            raise Untranslatable("missing arguments: `%s`" % ast.unparse(call))
+        body = copy.deepcopy(list(helper.body))
+        local = set(params)
+        for n in ast.walk(ast.Module(body=body, type_ignores=[])):
+            if isinstance(n, ast.Name) and isinstance(n.ctx, ast.Store):
+                local.add(n.id)
+        identity = {p for p in params if isinstance(given[p], ast.Name) and given[p].id == p}
+        self._inl = getattr(self, "_inl", 0) + 1
+        ren = {v: "%s_h%d" % (v, self._inl) for v in local if v in caller_names and v not in identity and v not in keep}
+
+        class Ren(ast.NodeTransformer):
+            def visit_Name(self, n):
+                return ast.copy_location(ast.Name(id=ren.get(n.id, n.id), ctx=n.ctx), n)
+        body = [Ren().visit(st) for st in body]
+        binds = [ast.Assign(targets=[ast.Name(id=ren.get(p, p), ctx=ast.Store())], value=given[p])
+                 for p in params if p not in identity]
+        return [ast.fix_missing_locations(st) for st in binds + self._tailify(body, sink)]
+
+    def _inline_helpers(self, stmts, caller_names, depth=0):
+        if not self.r.helpers:
+            return stmts
+        if depth > 8:
+            raise Untranslatable("helper functions nested too deeply (recursion?)")
+        out = []
+        for st in stmts:
+            call = sink = None
+            keep = set()
+            if isinstance(st, ast.Assign) and len(st.targets) == 1 and isinstance(st.value, ast.Call):
+                call, tgt = st.value, st.targets[0]
+                keep = {n.id for n in ast.walk(tgt) if isinstance(n, ast.Name)}
+                sink = (lambda e, tgt=tgt: ast.Assign(targets=[tgt], value=e))
+            elif isinstance(st, ast.Return) and isinstance(st.value, ast.Call):
+                call = st.value
+                sink = (lambda e: ast.Return(value=e))
+            if (call is not None and isinstance(call.func, ast.Name) and call.func.id in self.r.helpers
+                    and not any(match(pat, call, {}) for pat, _t, _f in self.r.expr)):
+                body = self._instantiate(self.r.helpers[call.func.id], call, sink, caller_names, keep)
+                out.extend(self._inline_helpers(body, caller_names, depth + 1))
+                continue
+            if isinstance(st, ast.If):
+                st = ast.If(test=st.test, body=self._inline_helpers(list(st.body), caller_names, depth),
+                            orelse=self._inline_helpers(list(st.orelse), caller_names, depth))
+            elif isinstance(st, ast.For):
+                st = ast.For(target=st.target, iter=st.iter, body=self._inline_helpers(list(st.body), caller_names, depth),
+                             orelse=list(st.orelse), type_comment=None)
+            out.append(ast.fix_missing_locations(st) if isinstance(st, (ast.If, ast.For)) else st)
+        return out
+
     def function_node(self, node, arg_names, ind=2, allow_unused=()):
         """like `function`, for a FunctionDef node (a nested def found with `nested`)"""
         node = _norm_kw(node)
+        if self.r.helpers:
+            import copy
+            names = {n.id for n in ast.walk(node) if isinstance(n, ast.Name)} | set(arg_names)
+            node = copy.copy(node)
+            node.body = self._inline_helpers(list(node.body), names)
+            for st in node.body:
+                ast.fix_missing_locations(st)
         a = node.args
         params = [x.arg for x in a.posonlyargs + a.args + a.kwonlyargs]
         if a.vararg:
@@ -305,6 +431,13 @@ def module_functions(module):
     """{name: (decorator source texts)} of the module-level function definitions, in source order"""
     tree = ast.parse(textwrap.dedent(inspect.getsource(module)))
     return [(st.name, [ast.unparse(d) for d in st.decorator_list]) for st in tree.body if isinstance(st, ast.FunctionDef)]
+
+
+def module_helpers(module, exclude=()):
+    """{name: FunctionDef} of the module-level functions that are not themselves translated entry points (`exclude`):
+    the helpers the code may have been split into"""
+    tree = ast.parse(textwrap.dedent(inspect.getsource(module)))
+    return {st.name: _norm_kw(st) for st in tree.body if isinstance(st, ast.FunctionDef) and st.name not in exclude}
 
 
 def module_assign(module, name):
